@@ -86,10 +86,10 @@ KindOf(p, i) ==
     [] d.mn = "jr"  -> [kind |-> "ind", t |-> 0]
     [] d.mn \in {"?", "jalr", "bltzal", "bgezal", "syscall", "break", "teq", "rdhwr"} -> [kind |-> "other", t |-> 0]
     [] OTHER        -> [kind |-> "fall", t |-> 0]
-AProg(p)  == [a \in { 4 * i : i \in 0..(NW(p) - 1) } |-> LET k == KindOf(p, a \div 4) IN [len |-> 4, kind |-> k.kind, t |-> k.t]]
+AProg(p)  == TLCEval([a \in { 4 * i : i \in 0..(NW(p) - 1) } |-> LET k == KindOf(p, a \div 4) IN [len |-> 4, kind |-> k.kind, t |-> k.t]])
 AMan(p)   == { <<4 * p.manual[i][1], 4 * p.manual[i][2]>> : i \in 1..Len(p.manual) }
 ARoots(p) == {4 * p.entry} \cup { m[1] : m \in AMan(p) } \cup { m[2] : m \in AMan(p) }
-AReach(p) == DReach(AProg(p), AMan(p), 4, ARoots(p))
+AReachOf(p, prog) == TLCEval(DReach(prog, AMan(p), 4, ARoots(p)))
 
 \* the specification only speaks about closed programs of the instruction kinds above
 Closed(p, prog, reach) ==
@@ -117,9 +117,9 @@ Contiguous(f, a) ==
   /\ \A o1, o2 \in occ : \A k \in o1[2]..o2[2] : <<o1[1], k>> \in occ
 
 \* the clauses; each returns a sequence of strings (empty = holds)
-StructureDiff(p) ==
-  LET prog == AProg(p)  reach == TLCEval(AReach(p))  f == TLCEval(FunOf(p))
-      instr == DInstr(reach)  pairs == TLCEval(NativePairs(f)) IN
+StructureDiff(p, prog, reach) ==
+  LET f == TLCEval(FunOf(p))
+      instr == TLCEval(DInstr(reach))  pairs == TLCEval(NativePairs(f)) IN
   (IF NoDangling(f) THEN <<>> ELSE <<"dangling">>)
   \o (IF NoDangling(f) /\ HeadOf(f, f.entry, Fuel(f)) = {4 * p.entry}
         /\ p.faddr = Zext(64, AddrAt(p, p.entry)) THEN <<>> ELSE <<"entry">>)
@@ -133,8 +133,8 @@ StructureDiff(p) ==
       THEN <<>> ELSE <<"not-exactly-once">>)
   \o (IF \A a \in instr : NativeSuccs(pairs, a) = DSuccs(reach, a) \ {a} THEN <<>> ELSE <<"successors">>)
 
-StructureDetail(p) ==
-  LET reach == AReach(p)  f == FunOf(p)  instr == DInstr(reach)  pairs == NativePairs(f) IN
+StructureDetail(p, prog, reach) ==
+  LET f == TLCEval(FunOf(p))  instr == TLCEval(DInstr(reach))  pairs == TLCEval(NativePairs(f)) IN
   [extra   |-> AddrsOf(f) \ instr, missing |-> instr \ AddrsOf(f),
    succs   |-> { <<a, NativeSuccs(pairs, a), DSuccs(reach, a) \ {a}>> : a \in { x \in instr : NativeSuccs(pairs, x) # DSuccs(reach, x) \ {x} } },
    counts  |-> { <<a, CountAddr(p, Zext(64, AddrAt(p, a \div 4))), p.alone[(a \div 4) + 1]>> :
@@ -143,7 +143,7 @@ StructureDetail(p) ==
 
 \* program features (for narrow known-finding signatures; not for the verdict)
 ProgTags(p) ==
-  LET prog == AProg(p)  reach == AReach(p)  instr == DInstr(reach)
+  LET prog == AProg(p)  reach == AReachOf(p, prog)  instr == TLCEval(DInstr(reach))
       branches == { a \in instr : prog[a].kind \in {"jump", "cond", "call", "ind"} }
       slots    == { a + 4 : a \in branches }
       targets  == { prog[a].t : a \in { x \in instr : prog[x].kind \in {"jump", "cond"} } } \cup { m[2] : m \in AMan(p) }
@@ -221,11 +221,12 @@ BeginVerdict(e) ==
   ELSE IF "ok" \notin DOMAIN e.lift THEN
        V("lifterr", IF "panic" \in DOMAIN e.lift THEN "structure:liftpanic" ELSE "structure:lifterr", "", <<>>)
   ELSE IF ~FunShape(e) THEN V("reject", "structure:malformed", "malformed event", <<>>)
-  ELSE IF ~Closed(e, AProg(e), AReach(e)) THEN V("unspec", "structure:unspec", "program is not closed / uses instructions outside the module", <<>>)
-  ELSE LET d == TLCEval(StructureDiff(e)) IN
-       IF d = <<>> THEN V("ok", "structure:ok", "", <<>>)
-       ELSE V("reject", "structure:reject", "structure",
-              [kind |-> "structure", arch |-> e.arch, diff |-> d, tags |-> ProgTags(e), detail |-> StructureDetail(e)])
+  ELSE LET prog == AProg(e)  reach == AReachOf(e, prog) IN
+       IF ~Closed(e, prog, reach) THEN V("unspec", "structure:unspec", "program is not closed / uses instructions outside the module", <<>>)
+       ELSE LET d == TLCEval(StructureDiff(e, prog, reach)) IN
+            IF d = <<>> THEN V("ok", "structure:ok", "", <<>>)
+            ELSE V("reject", "structure:reject", "structure",
+                   [kind |-> "structure", arch |-> e.arch, diff |-> d, tags |-> ProgTags(e), detail |-> StructureDetail(e, prog, reach)])
 
 RunVerdict(p, e) ==
   IF ~RunShape(e) THEN V("reject", "run:malformed", "malformed event", <<>>)
